@@ -1,10 +1,10 @@
-/* C12-K3: the algorithm printers of exppp (PROC_out / FUNC_out, src/exppp/pretty_proc.c / pretty_func.c) with the tail
+/* C12-K3: the algorithm printers of exppp (PROC_out / FUNC_out / RULE_out, src/exppp/pretty_proc.c / pretty_func.c / pretty_rule.c) with the tail
  * comment option on. Symbol.name (schema text) and Symbol.filename (the path the input was named by -- NOT schema text)
  * are independent symbolic strings; every string argument the printer hands to raw() or tail_comment() must be the
  * declaration's name, never the path: the printed text is then a function of the schema text only.
  * Callees that print the body (ALGargs_out, ALGscope_out, STMTlist_out, TYPE_head_out, exppp_ref_info) are empty stubs. */
 #ifndef KIND
-#define KIND 0   /* 0 PROCEDURE, 1 FUNCTION */
+#define KIND 0   /* 0 PROCEDURE, 1 FUNCTION, 2 RULE (no FOR parameters) */
 #endif
 #define VERIF_INPUTS(S,A) A(char,nm,3) A(char,fn,3)
 #include "verif.h"
@@ -18,6 +18,7 @@ char *placeholder = "";
 void prep_file(void) {} void finish_file(void) {} int prep_buffer(char *b, int l) { (void)b; (void)l; return 0; } int finish_buffer(void) { return 0; } int prep_string(void) { return 0; } char *finish_string(void) { return placeholder; }
 void first_newline(void) {} void exppp_ref_info(Symbol *s) { (void)s; }
 void ALGargs_out(Linked_List l, int level) { (void)l; (void)level; } void ALGscope_out(Scope s, int level) { (void)s; (void)level; }
+void WHERE_out(Linked_List l, int level) { (void)l; (void)level; } void wrap(const char *fmt, ...) { (void)fmt; }
 void STMTlist_out(Linked_List l, int level) { (void)l; (void)level; } void TYPE_head_out(Type t, int level) { (void)t; (void)level; }
 static const char *the_name, *the_file; static int name_seen, tails, foreign;
 static void see(const char *s) { if(s == the_name) name_seen++; else if(s == the_file || (s[0] == the_file[0] && s[1] == the_file[1] && !(s[0] == the_name[0] && s[1] == the_name[1]))) foreign++; }
@@ -28,12 +29,14 @@ void raw(const char *fmt, ...) { va_list ap; int i; va_start(ap, fmt);
 void tail_comment(const char *name) { tails++; see(name); }
 #if KIND == 0
 #include "src/exppp/pretty_proc.c"
-#else
+#elif KIND == 1
 #include "src/exppp/pretty_func.c"
+#else
+#include "src/exppp/pretty_rule.c"
 #endif
 static int letter(char c) { return c == 'p' || c == 'q' || c == '/'; }
 void harness(void) {
-    static struct Scope_ sc; static struct Procedure_ pr; static struct Function_ fu;
+    static struct Scope_ sc; static struct Procedure_ pr; static struct Function_ fu; static struct Rule_ ru;
     VERIF_BEGIN();
     nm[2] = 0; fn[2] = 0;
     ASSUME(letter(nm[0]) && nm[0] != '/' && (nm[1] == 0 || letter(nm[1])) && nm[1] != '/');
@@ -42,8 +45,10 @@ void harness(void) {
     sc.symbol.name = nm; sc.symbol.filename = fn; sc.symbol.line = 3;
 #if KIND == 0
     sc.u.proc = &pr; PROC_out(&sc, 0);
-#else
+#elif KIND == 1
     sc.u.func = &fu; FUNC_out(&sc, 0);
+#else
+    sc.u.rule = &ru; RULE_out(&sc, 0);
 #endif
     OBS("name=%s file=%s name_seen=%d tails=%d foreign=%d", nm, fn, name_seen, tails, foreign);
     CHECK(tails == 1, "exactly one tail comment closes the declaration");
